@@ -213,8 +213,10 @@ func (e *Engine) rangeIter(x Value, t types.Type) Value {
 	panic(fmt.Sprintf("range over %T", x))
 }
 
-// permute deviates from insertion order: all non-identity permutations for n<=4,
-// otherwise all single transpositions.
+// permute deviates from insertion order: all non-identity permutations for n<=4, all single
+// transpositions for n<=12, and for larger maps (unless the parameter "mapOrder.full" is set,
+// as the thorough tier does) the reversal, the rotation by one and all adjacent transpositions
+// — every pair of entries is inverted by the reversal, every "first" / "last" entry changes.
 func (e *Engine) permute(order []int) {
 	n := len(order)
 	if n <= 4 {
@@ -224,6 +226,22 @@ func (e *Engine) permute(order []int) {
 		cp := append([]int{}, order...)
 		for i := range order {
 			order[i] = cp[p[i]]
+		}
+		return
+	}
+	if n > 12 && e.cfg.Params["mapOrder.full"] == 0 {
+		k := e.chooseFree(n + 1)
+		switch {
+		case k == 0: // reversal
+			for i, j := 0, n-1; i < j; i, j = i+1, j-1 {
+				order[i], order[j] = order[j], order[i]
+			}
+		case k == 1: // rotation by one
+			first := order[0]
+			copy(order, order[1:])
+			order[n-1] = first
+		default: // adjacent transposition k-2, k-1
+			order[k-2], order[k-1] = order[k-1], order[k-2]
 		}
 		return
 	}
